@@ -32,6 +32,9 @@ StepT(e) ==
     [] e.op = "DecodeCBOR" -> LET x == DispatchCBOR(reg, bat.c[e.ix].tok) IN
                               [ok |-> IF x.r = "open" THEN e.retOK ELSE x.r = "ok", reg |-> reg, insts |-> insts, app |-> e.retOK]
     [] e.op = "Mutate"   -> IF e.ix > Len(insts) THEN [ok |-> FALSE, reg |-> reg, insts |-> insts, app |-> FALSE]
+                            ELSE IF e.how = "poke"       \* in-place writes through the instance's own pointers: its new value is
+                                 THEN [ok |-> TRUE, reg |-> reg,     \* whatever was observed; everything else must stay what it was
+                                       insts |-> [insts EXCEPT ![e.ix] = e.insts[e.ix]], app |-> FALSE]
                             ELSE LET o == insts[e.ix]
                                      x == CASE e.how = "setsw" -> SetSwF(o, e.arg.l, FALSE)
                                             [] e.how = "add" -> AddSwF(o, e.arg.l)
